@@ -271,6 +271,56 @@ func c18ConfiguredPort(c *Ctx) {
 	}
 }
 
+// c18FromPipe: the server list comes from something that can be read only once - a pipe (dcat --servers <(gen-hosts),
+// path /dev/fd/N): every entry must still be contacted exactly once.
+func c18FromPipe(c *Ctx) {
+	var listed []*dropListener
+	var entries []string
+	for i := 0; i < 3; i++ {
+		d := newDropListener()
+		listed = append(listed, d)
+		entries = append(entries, fmt.Sprintf("127.0.0.1:%d", d.port()))
+	}
+	var startErr string
+	res := vrt.Run(vrt.Config{MaxSteps: 5000000, Horizon: 3 * time.Minute}, func() {
+		r, w, err := os.Pipe()
+		if err != nil {
+			startErr = err.Error()
+			return
+		}
+		defer r.Close()
+		w.Write([]byte(strings.Join(entries, "\n") + "\n"))
+		w.Close()
+		args := DefaultArgs()
+		args.NoColor = true
+		args.Quiet = true
+		args.LogLevel = "error"
+		args.What = "/nonexistent/x.log"
+		args.ServersStr = fmt.Sprintf("/dev/fd/%d", r.Fd())
+		args.SSHAuthMethods = []ssh.AuthMethod{ssh.Password("x")}
+		env := StartEnv(source.Client, &args, nil)
+		cl, err := clients.NewCatClient(args)
+		if err != nil {
+			startErr = err.Error()
+			return
+		}
+		cl.Start(env.Ctx, vrt.Make[string]("statsCh", 0))
+	})
+	c.Count("server-list-from-pipe")
+	var got []int
+	bad := startErr != "" || res.Fail != nil
+	for _, d := range listed {
+		got = append(got, d.contacts())
+		if d.contacts() != 1 {
+			bad = true
+		}
+		d.l.Close()
+	}
+	if bad {
+		c.Violation("servers-from-a-pipe-not-contacted", fmt.Sprintf("dcat --servers /dev/fd/N (a pipe holding %v): contacts per entry %v, want exactly 1 each %s %v", entries, got, startErr, res.Fail), entries)
+	}
+}
+
 // c18Thousands: a server file / comma list with thousands of entries (duplicates scattered, host:port forms); one
 // execution each (the shuffle takes its first answer everywhere).
 func c18Thousands(c *Ctx) {
@@ -393,7 +443,7 @@ func init() {
 		Level: "model_checking",
 		Rule: "all server lists of length 1..5 (quick) / 1..6 (thorough) over {a, b, c:2222, a.dom} (so all duplicate patterns), given as comma list, as server file (newline-terminated, without final newline, CRLF, reached through a symbolic link and through a chain of two) and through a discovery " +
 			"module with the filters none, /a/, /^c/, /x/, /./; every random number the shuffle draws is an environment choice and ALL answer sequences are explored " +
-			"(complete tree, no bound); oracle: returned multiset == distinct entries matching the filter; plus, end to end, a real dcat over every list of <=3 entries (every entry an in-process server): each distinct server delivers the file exactly once; and a following client whose connections are all dropped re-connects only to the listed host:port entries (real TCP listeners, virtual time); a server file and a comma list of 3000 entries (2500 distinct); entries with and without a port under a non-default configured port; and a dcat over more unreachable servers than it connects to at a time (CPUs-1, +1, +5 entries, one connection per CPU) contacts each exactly once and ends; distinct = distinct (case, returned order) pairs",
+			"(complete tree, no bound); oracle: returned multiset == distinct entries matching the filter; plus, end to end, a real dcat over every list of <=3 entries (every entry an in-process server): each distinct server delivers the file exactly once; and a following client whose connections are all dropped re-connects only to the listed host:port entries (real TCP listeners, virtual time); a server file and a comma list of 3000 entries (2500 distinct); entries with and without a port under a non-default configured port; a server list that can be read only once (a pipe, /dev/fd/N); and a dcat over more unreachable servers than it connects to at a time (CPUs-1, +1, +5 entries, one connection per CPU) contacts each exactly once and ends; distinct = distinct (case, returned order) pairs",
 		Assumptions: []string{"math/rand is replaced by an explorer-owned choice; regexp is trusted"},
 		Run: func(c *Ctx) {
 			n := 5
@@ -434,6 +484,7 @@ func init() {
 				c18Reconnect(c)
 				c18ManyUnreachable(c)
 				c18Thousands(c)
+				c18FromPipe(c)
 				c18ConfiguredPort(c)
 			}
 			// end to end: the set of servers a real client actually contacts (host names without port;
